@@ -60,6 +60,7 @@ type sitesReport struct {
 	Sites       []siteInfo `json:"sites"`
 	SyncShims   []string   `json:"sync_shims"`
 	Unsupported []string   `json:"unsupported"`
+	SimOwned    []string   `json:"simulator_owned"`
 	RangeCalls  []string   `json:"dot_range_calls"`
 }
 
@@ -264,6 +265,9 @@ type agg struct {
 	found                                []*finding
 	sweepPairs, sweepPoints, sweepCold   int
 	numSites                             int
+	clockJumps, timersFired              int
+	simNanos                             int64
+	stuck                                []string
 }
 
 type finding struct {
@@ -321,6 +325,12 @@ func (a *agg) add(p *procRun, pool []*c14sim.Key, eligible []int) {
 	a.preempts += r.Preempts
 	a.yields += r.Yields
 	a.numSites = r.NumSites
+	a.clockJumps += r.ClockJumps
+	a.timersFired += r.TimersFired
+	a.simNanos += r.SimNanos
+	if r.Stuck != "" && len(a.stuck) < 5 {
+		a.stuck = append(a.stuck, fmt.Sprintf("process seed %d: %s", r.Seed, r.Stuck))
+	}
 	for k, v := range r.Strategies {
 		a.strategies[k] += v
 	}
@@ -380,6 +390,9 @@ func main() {
 	fmt.Printf("C14 %s tier, VERIF_SEED=%d, %d parallel processes, %d yield sites, sync shims: %v\n", *tier, base, parallel, len(sites.Sites), sites.SyncShims)
 	if len(sites.Unsupported) > 0 {
 		fmt.Printf("note: constructs the scheduler does not control: %v\n", sites.Unsupported)
+	}
+	if len(sites.SimOwned) > 0 {
+		fmt.Printf("note: clock / goroutine / channel constructs in the library, now owned by the simulator: %v\n", sites.SimOwned)
 	}
 	if len(sites.RangeCalls) > 0 {
 		fmt.Printf("note: .Range( calls in the instrumented tree (determinism hazard if sync.Map): %v\n", sites.RangeCalls)
@@ -552,6 +565,12 @@ func main() {
 			fmt.Println(l)
 		}
 		os.Exit(drv.ExitViolation)
+	}
+	if len(a.stuck) > 0 {
+		for _, st := range a.stuck {
+			fmt.Println("INCONCLUSIVE: UNSUPPORTED-SYNC: tasks wait on channels that nothing inside the simulation serves:", st)
+		}
+		os.Exit(drv.ExitInconclusive)
 	}
 	fmt.Println("C14 held on everything explored")
 }
